@@ -74,6 +74,12 @@ ConstAtoms == IF Rich THEN ConstAtomsRich ELSE IF Tiny THEN {"1"} ELSE {"1", "\"
 VarAtoms == {"$" \o v : v \in VarNames}
 ObjKeys == IF Rich THEN {"k", "query", "on", "null", "fragment"} ELSE {"k"}
 
+\* descriptions of executable definitions and of variable definitions (September 2025 grammar; astparser supports them,
+\* the independent parser does not: it is given the text without them).  Rich pools only; the literal-centred generator
+\* GQLGrammarLit covers these positions exhaustively.
+ExecDescLits == {"\"d\"", "\"\"\"d\"\"\"", "\"\"\"\n  two\n    lines\n  \"\"\"", "\"a \\\"q\\\" b\""}
+ExecDesc(x) == IF Rich THEN OptSeq({<<T(d, "desc")>> : d \in Pick(ExecDescLits)}) ELSE {<<>>}
+
 \* a value is a token sequence; composite values are built from atoms (nesting <= 2)
 ListOf(vs) == <<"[">> \o vs \o <<"]">>
 ObjOf(k, v) == <<"{", k, ":">> \o v \o <<"}">>
@@ -157,7 +163,10 @@ LimitsSoundFor(d, L, F, accepted) == Exceeds(d, L, F) => ~accepted
 \* start a definition only at brace level 0, otherwise they are counted like any identifier; (2) once a fragment
 \* definition has been seen (sf) a `{` at brace level 0 (shorthand operation) also closes the previous definition's
 \* depth accounting.  fixed = FALSE is the code as it was pinned.
-AllNames == PlainNames \cup SoftKeywords \cup {"z", "x", "skip", "include", "d", "Q", "F", "G", "T", "Int", "v", "w", "E", "RED", "k"}
+AllNames == PlainNames \cup SoftKeywords \cup {"z", "x", "skip", "include", "d", "Q", "F", "G", "T", "Int", "v", "w", "E", "RED", "k", "U", "f", "g", "A", "I"}
+            \cup {"QUERY", "MUTATION", "SUBSCRIPTION", "FIELD", "FRAGMENT_DEFINITION", "FRAGMENT_SPREAD", "INLINE_FRAGMENT", "VARIABLE_DEFINITION",
+                  "SCHEMA", "SCALAR", "OBJECT", "FIELD_DEFINITION", "ARGUMENT_DEFINITION", "INTERFACE", "UNION", "ENUM", "ENUM_VALUE",
+                  "INPUT_OBJECT", "INPUT_FIELD_DEFINITION"}
 VarSpellings == {"$" \o v : v \in AllNames}
 Lx(s) == IF s = "{" THEN "lbrace" ELSE IF s = "}" THEN "rbrace" ELSE IF s = "..." THEN "spread"
          ELSE IF s \in AllNames THEN "ident" ELSE IF s \in VarSpellings THEN "var" ELSE "other"
@@ -251,8 +260,11 @@ Coin == RandomElement(1..2) = 1
 
 GInit == /\ toks = <<>> /\ st = "top" /\ stack = <<>> /\ fl = Flags0 /\ ndefs = 0 /\ frags = {} /\ nf = 0 /\ mx = 0 /\ cost = 0
 
+\* (after a type-system definition a `{` would be read as that definition's body - the grammar's [lookahead != {] -
+\* so in mixed documents a shorthand operation only follows a definition that ended with `}`)
 StartShorthand ==
   /\ st = "top" /\ ndefs < MaxDefs /\ Budget
+  /\ IF Len(toks) = 0 THEN TRUE ELSE (toks[Len(toks)].r # "sdl" \/ toks[Len(toks)].s = "}")
   /\ Emit(<<T("{", "sh_open")>>)
   /\ stack' = <<[n |-> 0]>> /\ st' = "sel" /\ fl' = Flags0
   /\ mx' = IF mx < 1 THEN 1 ELSE mx
@@ -261,8 +273,8 @@ StartShorthand ==
 
 StartOp ==
   /\ st = "top" /\ ndefs < MaxDefs /\ Budget
-  /\ \E kw \in Pick(OpKinds), nm \in Opt(OpNames) :
-       Emit(<<T(kw, "kw_op")>> \o (IF nm = None THEN <<>> ELSE <<T(nm, "op_name")>>))
+  /\ \E kw \in Pick(OpKinds), nm \in Opt(OpNames), ds \in ExecDesc(toks) :
+       Emit(ds \o <<T(kw, "kw_op")>> \o (IF nm = None THEN <<>> ELSE <<T(nm, "op_name")>>))
   /\ st' = "ophead" /\ fl' = [Flags0 EXCEPT !.vars = TRUE]
   /\ UNCHANGED <<stack, ndefs, frags, nf, mx>>
   /\ Pay
@@ -274,8 +286,8 @@ SpreadPool == IF Sim /\ frags # {} /\ Coin THEN frags ELSE FragNames
 
 StartFrag ==
   /\ st = "top" /\ ndefs < MaxDefs /\ Budget /\ FragNames \ frags # {}
-  /\ \E nm \in Pick(FragDefPool), ty \in Pick(TypeNames) :
-       /\ Emit(<<T("fragment", "kw_frag"), T(nm, "frag_name"), T("on", "kw_on"), T(ty, "type_cond")>>)
+  /\ \E nm \in Pick(FragDefPool), ty \in Pick(TypeNames), ds \in ExecDesc(toks) :
+       /\ Emit(ds \o <<T("fragment", "kw_frag"), T(nm, "frag_name"), T("on", "kw_on"), T(ty, "type_cond")>>)
        /\ frags' = frags \cup {nm}
   /\ st' = "fraghead" /\ fl' = Flags0
   /\ UNCHANGED <<stack, ndefs, nf, mx>>
@@ -298,8 +310,8 @@ AddVarDef ==
   /\ st = "vars" /\ fl.n < MaxVars /\ (Budget \/ fl.n = 0)
   /\ \E v \in Pick(VarNames), ty \in TypeChoice(toks),
         def \in OptSeq({<<T("=", "punct")>> \o Tk(dv, "val") : dv \in ConstValues(toks)}),
-        dir \in (IF MaxDirs > 0 THEN OptSeq(DirChoices(toks)) ELSE {<<>>}) :
-       Emit(<<T("$" \o v, "var"), T(":", "punct")>> \o Tk(ty, "type") \o def \o dir)
+        dir \in (IF MaxDirs > 0 THEN OptSeq(DirChoices(toks)) ELSE {<<>>}), ds \in ExecDesc(toks) :
+       Emit(ds \o <<T("$" \o v, "var"), T(":", "punct")>> \o Tk(ty, "type") \o def \o dir)
   /\ fl' = [fl EXCEPT !.n = fl.n + 1]
   /\ UNCHANGED <<st, stack, ndefs, frags, nf, mx>>
   /\ Pay
